@@ -125,6 +125,12 @@ func (s *shard[K, V]) dropItem(
 	// removeExact frees.
 	if item.unpublished {
 		item.unpublished = false
+		// a candidate that never became resident is declined, not displaced:
+		// report it as a rejection so capacity listeners and the eviction
+		// counter only see entries that were actually readable.
+		if reason == RemovedCapacity {
+			reason = RemovedRejected
+		}
 	} else if !s.tab.removeExact(item) {
 		return false
 	}
